@@ -212,12 +212,12 @@ fn readers(s: &str) -> Vec<(&'static str, R)> {
 }
 
 pub fn check_string(s: &str, st: &mut Stats, mode: Count) {
-    netted(st, || json!({"kind": "string", "text": s, "hex": hex(s.as_bytes())}), s.len(), |st| check_string_inner(s, st, mode));
+    netted(st, || bytes_case_kind("string", s.as_bytes()), s.len(), |st| check_string_inner(s, st, mode));
 }
 
 fn check_string_inner(s: &str, st: &mut Stats, mode: Count) {
     st.eval();
-    let case = || json!({"kind": "string", "text": s, "hex": hex(s.as_bytes())});
+    let case = || bytes_case_kind("string", s.as_bytes());
     let parsed = match guard(|| s.parse::<LanguageIdentifier>()) {
         Ok(p) => p,
         Err(_) => return, // C01's business
